@@ -7,7 +7,8 @@ from . import compiledlib as cl, c07, asynclib as al
 
 def run(chk):
     quick = chk.tier == "quick"
-    jobs = c07.make_jobs(chk, 4 if quick else 24)
+    jobs = c07.make_jobs(chk, 10 if quick else 30)
+    jobs = [j for j in jobs if j["id"][0] in "rga"][:6 if quick else 30]     # high-ratio, generated and recorded instances
     for j in jobs: j["id"] = "c06c:" + j["id"]
     res = cl.run_jobs(jobs, nproc=4 if quick else 10)
     insts = []; meta = []
